@@ -17,6 +17,10 @@ def run(tier):
     cases = os.path.join(d, "cases.ndjson")
     vf.run_harness(binpath, ["mesh", "gen", "--seed", vf.seed(), "--tier", tier], stdout_path=cases)
     vf.exec_and_validate(chk, binpath, "mesh", "TV_Mesh", cases, jvms=8, what="solid")
+    # segment counts beyond 2^16, judged on a summary
+    big = os.path.join(d, "big_cases.ndjson")
+    vf.run_harness(binpath, ["mesh", "gen", "--seed", vf.seed(), "--tier", tier, "big"], stdout_path=big)
+    vf.exec_and_validate(chk, binpath, "mesh", "TV_MeshBig", big, jvms=1, what="solid with a very large segment count")
     chk.cov["distinct_nontrivial"] = chk.cov["traces_validated_against_impl"]
     # growth beyond the statement: the mesh builder as a state machine (MeshB.tla); every behaviour TLC
     # explores is replayed on the real builder, plus seeded longer histories; rejections are notes
